@@ -124,7 +124,20 @@ def run_case(impl, case):
     d = tempfile.mkdtemp(prefix='c08_', dir='/tmp')
     logdir = os.path.join(d, 'log')
     lines = []
-    if case['mode'] == 'blocked':
+    if case['mode'] == 'leftover':
+        # what a run killed inside compressFile() leaves: the complete rotated original and a half-written .gz of it;
+        # a fresh compressing sink with a finite count then goes through two rotations
+        os.makedirs(logdir)
+        x = 'app.%s.1.log' % time.strftime('%Y-%m-%d')
+        with open(os.path.join(logdir, x), 'wb') as f:
+            f.write(case['raw'])
+        z = pygzip.compress(case['raw'])
+        with open(os.path.join(logdir, x + '.gz'), 'wb') as f:
+            f.write(z[:len(z) // 2])
+        case['planted'] = x
+        lines += ['W ' + ('record %d ' % i).ljust(50, '.').encode().hex() for i in range(3)]
+        args = [logdir, '64', str(case.get('N', 5)), '4', 'u']
+    elif case['mode'] == 'blocked':
         # as 'raw', but a DIRECTORY occupies the name the first .gz would get: creating the .gz fails
         os.makedirs(os.path.join(logdir, 'app.%s.1.log.gz' % time.strftime('%Y-%m-%d')))
         with open(os.path.join(logdir, 'app.log'), 'wb') as f:
@@ -237,11 +250,17 @@ def make_cases(chk):
         raw += [('urandom', (1 << 20) + 1), ('mixed', 3 * (1 << 20) + 5), ('crlf', (1 << 20) + 1), ('urandom', 2 * 65536), ('urandom', 2 * 65536 + 1)]
     for kind, n in raw:
         cases.append({'mode': 'raw', 'kind': kind, 'size': n, 'rseed': rng.randrange(1 << 30)})
+    # the 4 MiB line: exactly 4 MiB and one byte more (quick: judged by zlib/gzip only, the model's CRC needs ~25 s per file)
+    for kind, n in (('mixed', 4 << 20), ('urandom', (4 << 20) + 1)):
+        cases.append({'mode': 'raw', 'kind': kind, 'size': n, 'rseed': rng.randrange(1 << 30), 'nomodel': not thorough})
+    # leftovers of a run killed while compressing: complete original + half-written .gz; the next sink must not destroy the original
+    for n, N in (((200000, 5), (70000, 3), (1000, 2)) if thorough else ((200000, 5),)):
+        cases.append({'mode': 'leftover', 'kind': 'mixed', 'size': n, 'N': N, 'rseed': rng.randrange(1 << 30)})
     # the .gz cannot be created (a directory has its name): the original must survive
     for kind, n in ([('urandom', 5000), ('crlf', 20000), ('mixed', 70000)] if thorough else [('urandom', 5000), ('crlf', 20000)]):
         cases.append({'mode': 'blocked', 'kind': kind, 'size': n, 'rseed': rng.randrange(1 << 30)})
     for c in cases:
-        if c['mode'] in ('raw', 'blocked'):
+        if c['mode'] in ('raw', 'blocked', 'leftover'):
             c['raw'] = gen_raw(c['kind'], c['size'], c['rseed']); c['records'] = []
         else:
             c['records'] = gen_records(c['kind'], c['size'], c['rseed'])
@@ -252,11 +271,12 @@ def describe(c, with_records=False):
     d = {k: c[k] for k in ('mode', 'size', 'rseed', 'L', 'N') if k in c}
     d['content'] = c['kind']
     if with_records and c['size'] <= 4096:
-        if c['mode'] in ('raw', 'blocked'):
+        if c['mode'] in ('raw', 'blocked', 'leftover'):
             d['raw_hex'] = c['raw'].hex()
         else:
             d['records_utf8_hex'] = [r.encode('utf-8').hex() for r in c['records']]
-    d['how'] = ("blocked mode: as raw mode, with a directory named app.<today>.1.log.gz created first; raw mode: app.log pre-written with checks.c08.gen_raw(content, size, rseed), then a sink with RotationOnStartup|Compression writes 'z'; "
+    d['how'] = ("leftover mode: app.<today>.1.log = gen_raw(...) and the first half of gzip.compress of it as app.<today>.1.log.gz planted, then a "
+                "sink with Compression, max size 64, count N writes three 51-byte records; blocked mode: as raw mode, with a directory named app.<today>.1.log.gz created first; raw mode: app.log pre-written with checks.c08.gen_raw(content, size, rseed), then a sink with RotationOnStartup|Compression writes 'z'; "
                 "records = checks.c08.gen_records(content, size, rseed); startup mode: write them with rotation off, restart the sink with "
                 "RotationOnStartup|Compression, write 'z'; size mode: Compression, max size L")
     return d
@@ -287,6 +307,17 @@ def evaluate_case(c, res, tmp_paths):
         for g in gz:
             if exp.get(g[:-3]) != want:
                 out['bad'].append(('snapshot', 'the file that was rotated did not hold the records written (harness/encoding problem?)'))
+    if c['mode'] == 'leftover':
+        x = c['planted']
+        ok_plain = files.get(x) == c['raw']
+        ok_gz = x + '.gz' in files and not check_gz(x + '.gz', files[x + '.gz'], c['raw'], py_decode(files[x + '.gz']))
+        if not (ok_plain or ok_gz):
+            out['bad'].append(('leftover-lost', 'a rotated original next to a half-written .gz (left by a run killed while compressing) is destroyed by the '
+                               'next sink: %s is %s and its .gz is %s; directory %s' % (x, 'gone' if x not in files else 'changed',
+                               'absent' if x + '.gz' not in files else 'not a complete gzip of it', sorted(files))))
+        if sum(1 for f in gz if f != x + '.gz') != 2:
+            out['bad'].append(('no-gz', 'expected two rotations with compression after the planted files, directory has %s' % sorted(files)))
+        gz = [f for f in gz if f != x + '.gz']
     for g in gz:
         plain = g[:-3]
         e = exp.get(plain)
@@ -303,9 +334,10 @@ def evaluate_case(c, res, tmp_paths):
         # model: header/trailer for the expected content, and the extracted reader on the file
         pe = os.path.join(res['dir'], plain + '.expected'); open(pe, 'wb').write(e)
         pi = os.path.join(res['dir'], plain + '.inflated'); open(pi, 'wb').write(facts['inflated'] or b'')
-        out['model_lines'].append('T @' + pe)
-        out['model_lines'].append('G @%s 10 %d @%s @%s' % (path, facts['consumed'], pi, pe))
-        out['gz'].append({'name': g, 'expected_len': len(e), 'facts': facts, 'blob_len': len(files[g]),
+        if not c.get('nomodel'):
+            out['model_lines'].append('T @' + pe)
+            out['model_lines'].append('G @%s 10 %d @%s @%s' % (path, facts['consumed'], pi, pe))
+        out['gz'].append({'name': g, 'nomodel': bool(c.get('nomodel')), 'expected_len': len(e), 'facts': facts, 'blob_len': len(files[g]),
                           'header': facts['header'], 'trailer': facts['trailer'], 'py_bad': [k for k, _ in bad],
                           'sha': hashlib.sha1(e).hexdigest()})
     # unrotated plain files left over must not coexist with their .gz (checked above); active file is free
@@ -512,12 +544,15 @@ def run():
             for i in idx:
                 n = len(evals[i]['model_lines'])
                 model_out[i] = out[k:k + n]; k += n
-        n_gz = n_oracle = 0
+        n_gz = n_oracle = n_zlib_only = 0
         disagree, falsified = [], []
         for i, (c, ev) in enumerate(zip(cases, evals)):
             mo_i = model_out.get(i, [])
             for j, g in enumerate(ev['gz']):
                 n_gz += 1
+                if g.get('nomodel'):
+                    n_zlib_only += 1      # judged by Python zlib / gzip / gzip -t only in this tier (model run in thorough)
+                    continue
                 t = mo_i[2 * j].split() if len(mo_i) > 2 * j else []
                 o = mo_i[2 * j + 1].split() if len(mo_i) > 2 * j + 1 else []
                 if len(t) != 3 or len(o) != 2:
@@ -555,7 +590,7 @@ def run():
         allg = [g for ev in evals for g in ev['gz']]
         sizes = [g['expected_len'] for g in allg]
         chk.cov.update({
-            'evaluations': n_gz + n_q + n_k + n_c + sum(1 for c in cases if c['mode'] == 'blocked'), 'concurrent_sink_files': n_c, 'gz_files_checked': n_gz, 'oracle_evaluated_on_impl_files': n_oracle,
+            'evaluations': n_gz + n_q + n_k + n_c + sum(1 for c in cases if c['mode'] == 'blocked'), 'concurrent_sink_files': n_c, 'gz_files_checked': n_gz, 'oracle_evaluated_on_impl_files': n_oracle, 'judged_by_zlib_only': n_zlib_only,
             'oracle_falsified': len(falsified), 'disagreements_model_vs_impl': len(disagree),
             'qcompress_framing_samples': n_q, 'kill_at_unlink_runs': n_k,
             'distinct_nontrivial': len({g['sha'] for g in allg if g['expected_len'] >= 2}),
@@ -563,8 +598,8 @@ def run():
                     'replaced file, gzip.decompress, gzip -t, extracted gunzip with that inflate result) + qCompress framing samples + '
                     'kill-before-unlink runs; non-trivial = distinct content of >= 2 bytes',
             'kinds': {k: sum(1 for c in cases if c['kind'] == k) for k in KINDS + RAW_KINDS},
-            'modes': {m: sum(1 for c in cases if c['mode'] == m) for m in ('startup', 'size', 'raw', 'blocked')},
-            'size_histogram': {'1': sum(1 for s in sizes if s == 1), '2-8191': sum(1 for s in sizes if 2 <= s < 8192),
+            'modes': {m: sum(1 for c in cases if c['mode'] == m) for m in ('startup', 'size', 'raw', 'blocked', 'leftover')},
+            'size_histogram': {'>=4MiB': sum(1 for s in sizes if s >= (4 << 20)), '1': sum(1 for s in sizes if s == 1), '2-8191': sum(1 for s in sizes if 2 <= s < 8192),
                                '8192': sum(1 for s in sizes if s == 8192), '8193-65535': sum(1 for s in sizes if 8192 < s < 65536),
                                '65536': sum(1 for s in sizes if s == 65536), '65537-1MiB': sum(1 for s in sizes if 65536 < s < (1 << 20)),
                                '>=1MiB': sum(1 for s in sizes if s >= (1 << 20))},
@@ -593,7 +628,7 @@ def replay(path):
     model = vlib.build_model('gzip'); impl = vlib.build_harness('gzip')
     kind = c['content']
     case = {'mode': c['mode'], 'kind': kind, 'size': c['size'], 'rseed': c['rseed'], 'L': c.get('L', 0), 'N': c.get('N', 0)}
-    if c['mode'] in ('raw', 'blocked'):
+    if c['mode'] in ('raw', 'blocked', 'leftover'):
         case['raw'] = bytes.fromhex(r['raw_hex']) if r.get('raw_hex') else gen_raw(kind, c['size'], c['rseed'])
         case['records'] = []
     elif r.get('records_utf8_hex'):
